@@ -235,6 +235,12 @@ def run(ctx, rep):
     modify_depends_on_the_declared_variable(F, rep)
     fields_supply_no_variable(F, rep)
     declarations_supply_what_follows(F, rep)
+    # which variable a statement writes is decided by the instruction it is compiled to (`store`: the function's own variable, made if need be;
+    # `store_object`: the captured cell; `bin_op_assign`: whatever the name resolves to, captured cells included): a statement compiled to
+    # another name-writing instruction than its form's changes which variable is written.  Every emission site is in the table of known forms
+    # (shared with C10).
+    from props import C10 as _c10
+    _c10.write_forms(F, rep, ctx.rules("const_forms.json"), "C07.write-forms")
 
 
 
